@@ -230,6 +230,24 @@ fn eq(a: &Obj, b: &Obj) -> Option<Outcome<bool>> {
         (Obj::C(_), Obj::C(_)) => return None, // structural equality of plain calendars is not this property
     })
 }
+/// a.__eq__(b) as Python evaluates it (the `#[pymethods]` item, through the cfg-guarded hooks)
+fn py_eq(a: &Obj, b: &Obj) -> Option<Outcome<bool>> {
+    use rateslib::calendars::CalType;
+    use rateslib::verif::calendar_py as cpy;
+    if let (Obj::C(_), Obj::C(_)) = (a, b) {
+        return None;
+    }
+    let other = match b {
+        Obj::C(y) => CalType::Cal(y.clone()),
+        Obj::U(y) => CalType::UnionCal(y.clone()),
+        Obj::N(y) => CalType::NamedCal(y.clone()),
+    };
+    Some(match a {
+        Obj::C(x) => guard(|| cpy::cal_eq(x, other)),
+        Obj::U(x) => guard(|| cpy::union_eq(x, other)),
+        Obj::N(x) => guard(|| cpy::named_eq(x, other)),
+    })
+}
 fn diffs(a: &Obj, b: &Obj) -> (Vec<i64>, Vec<i64>) {
     // projection of the two REAL objects on the supported range: days where they disagree
     let (lo, hi) = (0i64, 84370i64);
@@ -330,6 +348,12 @@ pub fn equality(seed: u64, n: usize, out: &str) {
                 match oc {
                     Outcome::Ok(v) => res.push(json!({"dir":dir,"o":"ok","eq":v})),
                     Outcome::Panic(_) => res.push(json!({"dir":dir,"o":"panic","eq":false})),
+                }
+            }
+            if let Some(oc) = py_eq(x, y) {
+                match oc {
+                    Outcome::Ok(v) => res.push(json!({"dir":format!("{}:py", dir),"o":"ok","eq":v})),
+                    Outcome::Panic(_) => res.push(json!({"dir":format!("{}:py", dir),"o":"panic","eq":false})),
                 }
             }
         }
